@@ -25,6 +25,7 @@ func runRoundTrip(o opts, out *Output, sig int) {
 	var tb strings.Builder
 	tb.WriteString("Definition table_cases : list tcase := [\n")
 	nt := 0
+	var evCases, lkCases []string
 	r := NewRng(o.seed)
 	stats := map[string]int{}
 	signal := []string{"traces", "logs", "metrics"}[sig]
@@ -64,6 +65,14 @@ func runRoundTrip(o opts, out *Output, sig int) {
 				itemTy := int32(41)
 				if sig == 1 {
 					itemTy = 31
+				}
+				if sig == 0 {
+					if cc, ok := childCase(res.Recs, 42, 44, "name", cr.DecodedEvents); ok {
+						evCases = append(evCases, " "+cc)
+					}
+					if cc, ok := childCase(res.Recs, 43, 45, "trace_id", cr.DecodedLinks); ok {
+						lkCases = append(lkCases, " "+cc)
+					}
 				}
 				if tc, ok := tableCase(res.Recs, itemTy, cr.Decoded); ok {
 					if nt > 0 {
@@ -145,6 +154,16 @@ Print rt_propfail.
 		out.Coq.WriteString("Definition lookup_attrs" + parts[1])
 		out.Lists = append(out.Lists, "table_mismatch")
 		stats["table_cases"] = nt
+		if sig == 0 {
+			cparts := strings.SplitN(childCheckCoq, "Definition event_mismatch", 2)
+			out.Coq.WriteString(cparts[0])
+			out.Coq.WriteString("Definition event_cases : list ccase := [\n" + strings.Join(evCases, ";\n") + "\n].\n")
+			out.Coq.WriteString("Definition link_cases : list ccase := [\n" + strings.Join(lkCases, ";\n") + "\n].\n")
+			out.Coq.WriteString("Definition event_mismatch" + cparts[1])
+			out.Lists = append(out.Lists, "event_mismatch", "link_mismatch")
+			stats["event_cases"] = len(evCases)
+			stats["link_cases"] = len(lkCases)
+		}
 	}
 	out.Extra["stats"] = stats
 }
